@@ -259,7 +259,8 @@ def specs():
         add("[same object] " + name, twice(make, method, array_class), fac)
     Qv = lambda q: Quaternion(q)                        # noqa: E731
     Qn = lambda q: Quaternion(q, versor=False)          # noqa: E731
-    for lab, mk in (("Quaternion", Qv), ("Quaternion[versor=False]", Qn)):
+    Qs = lambda q: Quaternion(q, order="S")             # noqa: E731
+    for lab, mk in (("Quaternion", Qv), ("Quaternion[versor=False]", Qn), ("Quaternion[order=S]", Qs)):
         same(lab + ".conjugate/inverse", mk, lambda X: (X.conjugate, X.inverse, X.conj, X.inv), lambda a: [a.q()])
         same(lab + ".exponential/logarithm", mk, lambda X: (X.exponential, X.logarithm, X.exp, X.log), lambda a: [a.q()])
         same(lab + ".to_DCM/to_angles/to_axang", mk, lambda X: (X.to_DCM(), X.to_angles(), X.to_axang()[0], X.to_axang()[1]), lambda a: [a.q()])
@@ -277,6 +278,10 @@ def specs():
     same("QuaternionArray.angular_velocities", QA, lambda X: X.angular_velocities(0.01), lambda a: [a.qu(6)])
     same("QuaternionArray.rotate_by", QA, lambda X, q: X.rotate_by(q), lambda a: [a.q(5), a.q()])
     same("QuaternionArray.is_*", QA, lambda X: (X.is_pure().astype(float), X.is_real().astype(float), X.is_versor().astype(float), X.is_identity().astype(float)), lambda a: [a.q(5)])
+    QAs = lambda Q: QuaternionArray(Q, order="S")       # noqa: E731
+    same("QuaternionArray[order=S].to_DCM/to_angles/conjugate", QAs, lambda X: (X.to_DCM(), X.to_angles(), X.conjugate()), lambda a: [a.q(5)])
+    same("QuaternionArray[order=S].average", QAs, lambda X: X.average(), lambda a: [a.qu(6)])
+    same("QuaternionArray[order=S].angular_velocities", QAs, lambda X: X.angular_velocities(0.01), lambda a: [a.qu(6)])
     same("QuaternionArray[versors=False].rotate_by", lambda Q: QuaternionArray(Q, versors=False), lambda X, q: X.rotate_by(q), lambda a: [a.q(5), a.q()])
     D = lambda R: DCM(R)                                # noqa: E731
     for m_ in ("shepperd", "hughes", "chiaverini", "itzhack", "sarabandi"):
